@@ -18,7 +18,7 @@ from common import pb, u, Time, da, materialise
 PID = "C04"
 KINDS = {"c16": np.complex128, "c8": np.complex64}
 EPOCH = Time("2021-03-04T05:06:07.891", format="isot", precision=9)
-FUNITS = [u.Hz, u.kHz, u.MHz, u.mHz]
+FUNITS = [u.Hz, u.kHz, u.MHz, u.mHz, 1 / u.s, u.Hz]      # exactly Hz twice: the unit the code converts to
 
 
 def shape_tag(ssh, shsh):
@@ -48,7 +48,8 @@ def variants(case, idx, rnd, n):
     dual = len(case["ssh"]) == 2 and case["ssh"][1] == 2
     return [{"kind": ["c16", "c8"][(idx + j) % 2], "dask": rnd.random() < 0.2, "rate": rnd.randrange(len(sl.RATES)),
              "start": rnd.random() < 0.6, "unit": rnd.randrange(len(FUNITS)),
-             "cls": "DualPolarizationSignal" if dual and rnd.random() < 0.5 else "BasebandSignal"} for j in range(n)]
+             "cls": "DualPolarizationSignal" if dual and rnd.random() < 0.5 else "BasebandSignal",
+             "negzero": rnd.random() < 0.35} for j in range(n)]
 
 
 def replay_case(tab, case, var):
@@ -57,7 +58,7 @@ def replay_case(tab, case, var):
     N, ssh, shsh = case["N"], tuple(case["ssh"]), tuple(case["shsh"])
     data, cols = sl.build_data(tab, N, ssh, False, KINDS[var["kind"]])
     z = sl.make_signal(data, var.get("cls", "BasebandSignal"), sl.RATES[var["rate"]], EPOCH if var["start"] else None, var["dask"])
-    df = shift_quantity([s / 4 for s in case["S"]], shsh, z, FUNITS[var["unit"]])
+    df = shift_quantity(sl.lattice(case["S"], var.get("negzero", False)), shsh, z, FUNITS[var["unit"]])    # zeros as -0.0 in some
     tag = shape_tag(ssh, shsh)
     what = "freq_shift(N=%d, sample shape %r, shift %s bins shape %r, %s %s%s)" % (
         N, ssh, [s / 4 for s in case["S"]], shsh, var["kind"], var.get("cls", "BasebandSignal"), ", dask" if var["dask"] else "")
@@ -73,6 +74,16 @@ def replay_case(tab, case, var):
             return out, info
     a = materialise(y).reshape(N, -1).astype(np.complex128)
     xin = materialise(z).reshape(N, -1).astype(np.complex128)
+    # ---- the same argument objects passed again denote the same request (the first result is judged below
+    #      against TLC's expectation, which was derived from the abstract case before any call)
+    try:
+        a2 = materialise(pb.freq_shift(z, df)).reshape(N, -1).astype(np.complex128)
+        if not np.array_equal(a2, a):
+            out.append(("freq_shift:repeat-call-differs:" + ("array" if shsh else "scalar"),
+                        "%s (shift unit %s) called again with the same objects returns another result (max diff %.3g)"
+                        % (what, FUNITS[var["unit"]], float(np.abs(a2 - a).max()) if a2.shape == a.shape else -1.0)))
+    except Exception as e:  # noqa
+        out.append(("freq_shift:raised", "%s called again with the same objects raised %r" % (what, e)))
     Y = np.fft.fft(a, axis=0)
     for j, (c, q) in enumerate(zip(cols, case["qe"])):
         e = tab.get(N, c, q)
@@ -109,6 +120,29 @@ def replay_case(tab, case, var):
     return out, info
 
 
+def run_sessions(chk, tab, pairs, rnd, limit, nvar):
+    """histories of two calls in one process: the same values on two broadcast layouts (per channel
+    [[a],[b]], then per polarisation [[a,b]]), like signals; every call is judged on its own layout"""
+    pairs = [p for p in pairs if len(set(p[0]["S"])) > 1] or pairs
+    if len(pairs) > limit:
+        pairs = rnd.sample(pairs, limit)
+    n = 0
+    for i, (first, second) in enumerate(pairs):
+        for var in variants(second, i, rnd, nvar):
+            table = sl.merge_tables(sub_table(tab, first), sub_table(tab, second))
+            for step, case in enumerate((first, second)):
+                res, _ = replay_case(tab, case, var)
+                n += 1
+                for key, desc in res:
+                    chk.violation(key + (":after-other-layout" if step else ""),
+                                  desc + (" [second call of a session; first call: shift shape %r]" % (tuple(first["shsh"]),) if step else ""),
+                                  {"kind": "session", "cases": [first, second], "var": var, "table": table})
+    chk.validated += n
+    chk.notes["session_calls"] = n
+    if pairs:
+        chk.sample({"session": [{k: c[k] for k in ("N", "ssh", "shsh", "S")} for c in pairs[0]]})
+
+
 def sub_table(tab, case):
     N = case["N"]
     out = {"x": {}, "e": {}}
@@ -137,10 +171,10 @@ class JsonTable(sl.Table):
 
 
 def run_replay(chk, tab, cases, rnd, limit, nvar):
+    usable = [c for c in cases if all(tab.has(c["N"], q) for q in c["qe"])]
+    run_sessions(chk, tab, sl.sessions(usable), rnd, max(60, limit // 12), nvar)
     by = {}
-    for c in cases:
-        if not all(tab.has(c["N"], q) for q in c["qe"]):
-            continue
+    for c in sl.first_calls(usable):
         by.setdefault((tuple(c["ssh"]), tuple(c["shsh"])), []).append(c)
     per = max(1, limit // max(1, len(by)))
     chosen = []
@@ -200,12 +234,17 @@ def probe_params(rnd, thorough):
             else:
                 a = 0.0
             A.append(float(a))
+        if rnd.random() < 0.3:
+            A = (-np.array(A, dtype=np.float64)).tolist()        # produced by negation: zeros become -0.0
+        if style in ("mixed", "zero", "edge-whole") and rnd.random() < 0.5:
+            A[rnd.randrange(len(A))] = rnd.choice([-0.0, 0.0, -0.0] if probe == "tone" else
+                                                  [-0.0, 0.0, 5e-324, -5e-324, 2.2250738585072014e-308, -0.0])   # signed zeros, subnormals
         nel = int(np.prod(ssh))
         lo, hi = -(N // 2), (N - 1) // 2
         out.append({"N": N, "ssh": list(ssh), "shsh": list(shsh), "A": A, "kind": ["c16", "c8"][i % 2], "probe": probe,
                     "pos": [rnd.randint(lo, hi) if probe == "tone" else rnd.randrange(N) for _ in range(nel)],
                     "dask": rnd.random() < 0.15, "rate": rnd.randrange(len(sl.RATES)), "unit": rnd.randrange(len(FUNITS)),
-                    "pick": rnd.randrange(1 << 30)})
+                    "pick": rnd.randrange(1 << 30), "again": i % 2 == 1})
     return out
 
 
@@ -230,6 +269,8 @@ def drive_probe(p, eid):
     Abins = [exact.frac(float(v)) / rate * N for v in dfv]
     m0 = sl.meta_of(z)
     y = pb.freq_shift(z, df)
+    if p.get("again"):
+        y = pb.freq_shift(z, df)        # the same objects passed again: the observed call is the second one
     meta_changed = sl.meta_diff(m0, sl.meta_of(y))
     a = materialise(y).reshape(N, nel).astype(np.complex128)
     Y = np.fft.fftshift(np.fft.fft(a, axis=0), axes=0)
@@ -269,7 +310,7 @@ def run_trace(chk, rnd, thorough):
         if meta_changed:
             chk.violation("freq_shift:metadata", "probe %r changed %s" % (p, meta_changed), {"kind": "probe", "p": p})
         events.append(ev)
-    rejected, n = sl.validate("Trace_Shift", events, chk=chk, name="fshift", batch=max(30, len(events) // 6 + 1), par=6)
+    rejected, n = sl.validate("Trace_Shift", events, chk=chk, name="fshift", batch=max(30, len(events) // 4 + 1), par=4)
     chk.validated += n
     for ev, failed in rejected:
         p = params[ev["id"]]
@@ -298,6 +339,8 @@ def run(chk):
         "neg": lambda: tlc.run("MC_FreqShift", "Neg_FreqShift_pinned.cfg", workers=1, timeout=900, heap="1g"),
         "cases": lambda: sl.gen("Gen_FreqShift", "Gen_FreqShift_%s.cfg" % t, workers=2),
         "table": lambda: sl.gen("Gen_Delay", "Gen_Delay_freq_%s.cfg" % t, workers=5, timeout=3000),
+        # the large-N probes are driven and validated side by side with the generation jobs
+        "trace": lambda: run_trace(chk, random.Random(chk.seed + 104729), thorough),
     })
     chk.mc_must_hold("MC_FreqShift_" + t, res["mc"])
     chk.exhaustive = res["mc"].ok
@@ -311,8 +354,7 @@ def run(chk):
         if not res[k][0].ok:
             chk.machinery_errors.append("generation %s failed: %s" % (k, res[k][0].stdout[-2000:]))
     tab = sl.Table(res["table"][1])
-    run_replay(chk, tab, res["cases"][1], rnd, 40000 if thorough else 3500, 2 if thorough else 1)
-    run_trace(chk, rnd, thorough)
+    run_replay(chk, tab, res["cases"][1], rnd, 40000 if thorough else 3000, 2 if thorough else 1)
     chk.assumptions += [
         "TLC explores FreqShift exhaustively only within the constants of the MC configuration",
         "expected spectra / samples are TLC's (kernel DFT on 60-bit fixed point, N <= 8), compared at 1e-5*sum|x| / 1e-5*max|x|",
@@ -324,7 +366,13 @@ def run(chk):
 
 def replay(doc):
     c = doc["case"]
-    if c["kind"] == "gen":
+    if c["kind"] == "session":
+        tab = JsonTable(c["cases"][0]["N"], c["table"])
+        bad = []
+        for step, case in enumerate(c["cases"]):
+            res, _ = replay_case(tab, case, c["var"])
+            bad += [(k + (":after-other-layout" if step else ""), d) for k, d in res]
+    elif c["kind"] == "gen":
         tab = JsonTable(c["case"]["N"], c["table"])
         bad, _ = replay_case(tab, c["case"], c["var"])
     else:
